@@ -37,7 +37,7 @@
 From Coq Require Import List NArith Bool.
 From Coq.Strings Require Import Byte.
 From GM Require Import Base.Lts Codec.Packet Session.Store Broker.Conn Broker.ConnSpec Broker.ConnSpec2
-  Broker.ConnProofsD0 Broker.ConnProofsD1 Broker.ConnProofsDTraces.
+  Broker.ConnSpec5 Broker.ConnProofsD0 Broker.ConnProofsD1 Broker.ConnProofsD5 Broker.ConnProofsDTraces.
 Import ListNotations.
 Open Scope N_scope.
 
@@ -56,6 +56,26 @@ Print Assumptions C15_resend_order.
 Theorem C15_dequeue_order : forall es s, bc_run es = Some s -> c15_dequeue_order es = true.
 Proof. exact c15_dequeue_order_holds. Qed.
 Print Assumptions C15_dequeue_order.
+
+(* C15_resend_first (clause c15_resend_first of Broker/ConnSpec5.v): retransmissions come
+   first.  On every connection, from the successful Setup until Restore -- while the stored
+   outgoing packets are listed and re-sent -- nothing is dequeued (no EDeqCall / EDeqRet) and
+   nothing is sent except, by the processor, the CONNACK and then exactly the listed packets
+   (PUBLISH with dup set, PUBREL) in listing order; Restore only when the list is exhausted.
+   With C15_resend_order (the list is in original-transmission order) and C15_dequeue_order
+   this is "packets retransmitted after a session is resumed are sent in the order of their
+   original transmission", ahead of anything published while the subscriber was offline. *)
+Theorem C15_resend_first : forall es s, bc_run es = Some s -> c15_resend_first es = true.
+Proof. exact c15_resend_first_holds. Qed.
+Print Assumptions C15_resend_first.
+
+(* the resume witness satisfies it; a fresh PUBLISH overtaking the retransmission, a
+   re-send out of listing order and an early Restore are rejected (by the model too) *)
+Example C15_resend_first_witness :
+  (exists s, bc_run td_resume = Some s) /\ c15_resend_first td_resume = true /\
+  c15_resend_first td_bad_rf_overtake = false /\ c15_resend_first td_bad_rf_order = false /\
+  c15_resend_first td_bad_rf_early = false /\ c15_dequeue_order td_bad_rf_overtake = true.
+Proof. split; [vm_compute; eexists; reflexivity|]. vm_compute. repeat split; reflexivity. Qed.
 
 (* ------------------------------------------------------------ non-vacuity *)
 
